@@ -31,3 +31,13 @@ CLAIMS["C06"] = (
     "Trusted: mc/ref/loss.py (documented formulas; derivatives self-tested numerically). Points with |Xw| > 30 (float64 "
     "overflow regime) are outside the alphabet. Cox/SqrtQuadratic raw_hessian are bounds and belong to C09.",
     "DESIGN.md §4 C06")
+CLAIMS["C09"] = (
+    "exploration",
+    "bounded exhaustive enumeration of (datafit, hyper, X, y, power-method seed) against eigenvalue-based curvature bounds",
+    "Coordinate, group and global constants of every datafit are recomputed as lambda_max(X_B' D X_B) (numpy eigvalsh, D the "
+    "documented curvature sup) on all small ternary designs plus full-rank, zero-column, rescaled, duplicated/dependent-column "
+    "designs and all group layouts; dense must be equal, power-method (CSC) values must lie in [(1-2e-2)L, L] for 5 seeds; "
+    "Cox/SqrtQuadratic raw_hessian must dominate the true Hessian at every grid point.",
+    "Trusted: documented curvature sups in mc/ref/loss.py, numpy eigvalsh. Cox.get_global_lipschitz only checked as a necessary "
+    "condition at the sampled points.",
+    "DESIGN.md §4 C09")
